@@ -997,7 +997,7 @@ func (s *Server) cmdFSET(msg *Message) (resp.Value, commandDetails, error) {
 
 	var res resp.Value
 
-	if ret {
+	if ret && d.obj != nil {
 		res := buildObjectResponse(msg, d.obj, start, kind, precision, withfields, msg.OutputType == JSON)
 		return res, d, nil
 	}
